@@ -19,9 +19,13 @@ from concurrent.futures import ThreadPoolExecutor
 from lib import common as C
 
 ID = "C04"
-PROP_MODULES = ["GPVerif.Props.C04"]
-BUILD_TARGETS = ["GPVerif.Props.C04", "GPVerif.Gen.FantasyFrame", "GPVerif.Gen.FantasyAlgebra", "GPVerif.Model.Fantasy"]
-RULE = ("cells of {model batch () / (2,)} x {plain, shared inputs, per-fantasy inputs, un-batched inputs} x {Gaussian, "
+PROP_MODULES = ["GPVerif.Props.C04", "GPVerif.Props.C04Batch", "GPVerif.Props.C04BatchAlgebra"]
+BUILD_TARGETS = ["GPVerif.Props.C04", "GPVerif.Props.C04Batch", "GPVerif.Props.C04BatchAlgebra", "GPVerif.Gen.FantasyFrame",
+                 "GPVerif.Gen.FantasyAlgebra", "GPVerif.Gen.FantasyShapes", "GPVerif.Model.Fantasy"]
+RULE = ("batch-shape part: all (model, input, target) batch shapes of rank <= 2 (thorough: inputs / targets rank <= 3) "
+        "with sizes in {1,2,3} + the fixed-noise batch choices, generated op lists vs specification vs torch on every "
+        "one, the real code on every accepted one (quick: a seed-dependent sample of ~80 + the documented patterns) "
+        "and a sample of rejected ones; other part: cells of {model batch () / (2,)} x {plain, shared inputs, per-fantasy inputs, un-batched inputs} x {Gaussian, "
         "FixedNoise, FixedNoise+learned, multitask} x {default strategy, WISKI} x depth 1-3 x fast_pred_var x "
         "detach_test_caches (+ full-rank Lanczos cells); data, hyper-parameters, sizes (n<=10, f<=4, d<=2, t<=3) and "
         "the per-step batch pattern are random per case; distinct = distinct configuration + case seed; non-trivial = "
@@ -41,6 +45,8 @@ ASSUMPTIONS = ["float64 only; kernel matrices are evaluated once by the harness 
 
 GEN = os.path.join(C.LEAN_DIR, "GPVerif", "Gen", "FantasyFrame.lean")
 GEN_ALG = os.path.join(C.LEAN_DIR, "GPVerif", "Gen", "FantasyAlgebra.lean")
+GEN_SHAPES = os.path.join(C.LEAN_DIR, "GPVerif", "Gen", "FantasyShapes.lean")
+_state = {"shapes": None}
 SCALE = 2 ** 100
 LIK_NAME = {"gauss": "gaussian", "fixed": "fixednoise", "fixedl": "fixednoise+learned", "mt": "multitask"}
 T_TASKS = 2
@@ -60,6 +66,10 @@ def generate(ctx):
     from translate import g7_fantasy_algebra
     info = g7_fantasy_algebra.generate(C.REPO, GEN_ALG)
     ctx.notes["gen_algebra"] = info
+    from translate import g6_fantasy_shapes
+    d, changed_s = g6_fantasy_shapes.generate(C.REPO, GEN_SHAPES)
+    _state["shapes"] = d
+    ctx.notes["gen_shapes"] = {"ops": len(d["program"]), "fixed_noise_ops": len(d["fixedNoise"]), "changed": changed_s}
 
 
 # ------------------------------------------------------------------ real models
@@ -1412,6 +1422,8 @@ def correspondence(ctx):
     try:
         _run_all(ctx, case_list, use_driver=True)
         dirichlet_cells(ctx, ctx.rng("dirichlet"), use_driver=True)
+        from props import _c04shapes
+        _c04shapes.shape_part(ctx, _state["shapes"], lambda ls: run_driver_parallel(ls, chunk=120))
     except RuntimeError as e:
         if "driver" not in str(e):
             raise
@@ -1434,8 +1446,12 @@ def search(ctx, broken):
 
 
 def replay(ctx, payload):
-    cfg = payload["case"]["cfg"]
     before = len(ctx.failures)
+    if "shape_case" in payload["case"]:
+        from props import _c04shapes
+        _c04shapes.replay_shape(ctx, payload["case"]["shape_case"], _state["shapes"], lambda ls: C.run_driver("C04", ls))
+        return len(ctx.failures) == before
+    cfg = payload["case"]["cfg"]
     if cfg.get("dirichlet"):
         dirichlet_cells(ctx, ctx.rng("dirichlet"), use_driver=False)
         return len(ctx.failures) == before
